@@ -16,7 +16,12 @@ package verifharness
 //   regerc20 vb* <addr> addrStr* qok* name* symbol* decimals* sanitized* denom* desc* mdValid*
 //   toggle   vb* <token string>
 //   update   vb* <old> <new> newStr* qok* name* symbol* decimals* descOld* descNew*
-//   convert  <token string> <denom> live*      (token = denom: MsgConvertCoin, else MsgConvertERC20)
+//   convert  vb* <token string> <denom> live*  (token = denom: MsgConvertCoin, else MsgConvertERC20; vb = msg.ValidateBasic)
+//   dry <op>                                   (the op on a context that is DROPPED: tx simulation / CheckTx / failed tx)
+//   restart                                    (module restart: ExportGenesis -> JSON -> Validate -> empty store -> InitGenesis)
+//   bulkmeta <n> <prefix>                      (bank metadata of the coins <prefix>0000 .. ; `env mint <n> <prefix>` mints them)
+// every proposal goes: MsgSubmitProposal.ValidateBasic -> gov Keeper.SubmitProposal (routed handler on a dropped context)
+// -> the handler gov's router returns, on a cache context written back on success (what gov's EndBlocker does)
 //   env kill <addr>                            (the contract self-destructs; no registry change)
 //   env wipe                                   (the three registry prefixes are emptied — a chain restarted from an export;
 //                                               contracts, balances, escrow and bank metadata stay)
@@ -28,6 +33,7 @@ package verifharness
 
 import (
 	"fmt"
+	"math/big"
 	"os"
 	"sort"
 	"strconv"
@@ -72,6 +78,7 @@ type c12World struct {
 	ext     []common.Address // externally deployed ERC20 contracts (same name / symbol / decimals)
 	mod     []common.Address // the addresses the next module deployments will get
 	eoa     common.Address   // an address without code
+	vanity  common.Address   // a contract whose 20 address bytes read "stake-validator-pool"
 	addrs   []common.Address // universe
 	denoms  map[string]bool  // every denomination seen (for the id table)
 	spells  map[string]bool  // every address spelling seen (for the id table)
@@ -81,9 +88,18 @@ type c12World struct {
 	conv    map[string]bool // denominations that were convertible and whose pair was not deleted since
 	full    string          // full dump of the current state (incl. metadata and live set)
 	lastOp  string
+	nodes   int
+	writeBase func() // writes the current history into the block state (whole-app restart)
+	genmode string
+	dryDepth int
 	noRT    bool // a genesis file was imported: ownership claims of its pairs are unchecked, so no round-trip demands
 	tainted bool // a genesis file that Validate accepts but that is not consistent was imported: no oracle afterwards
 }
+
+const c12VanityDenom = "stake-validator-pool" // 20 characters: also a contract address
+
+// a denomination of maximal length (128 characters)
+var c12MaxDenom = "m" + strings.Repeat("x", 126) + "z"
 
 func c12Must(err error) {
 	if err != nil {
@@ -100,6 +116,7 @@ func newC12World() *c12World {
 	c12Must(err)
 	c12Must(a.StakingKeeper.SetValidatorByConsAddr(ctx, val))
 	a.StakingKeeper.SetValidator(ctx, val)
+	a.StakingKeeper.AfterValidatorCreated(ctx, val.GetOperator()) // distribution / slashing records (a whole-app export checks the invariants)
 	w := &c12World{app: a, denoms: map[string]bool{}, spells: map[string]bool{}, idTab: map[string]string{}}
 	w.handler = aggregate.NewAggregateProposalHandler(a.AggregateKeeper)
 	w.user = common.HexToAddress("0x00000000000000000000000000000000c12c12c1")
@@ -109,7 +126,8 @@ func newC12World() *c12World {
 		CodeHash:    common.BytesToHash(crypto.Keccak256(nil)).String(),
 	})
 	// coins with supply, held by the user
-	for _, d := range []string{"acoin", "bcoin", "ccoin", "ibc/27394FB092D2ECCD56123C74F36E4C1F926001CEADA9CA97EA622B25F41E5EB2", "abcdefabcdefabcdefabcdefabcdefabcdefabcd"} {
+	for _, d := range []string{"acoin", "bcoin", "ccoin", "ibc/27394FB092D2ECCD56123C74F36E4C1F926001CEADA9CA97EA622B25F41E5EB2", "abcdefabcdefabcdefabcdefabcdefabcdefabcd",
+		c12VanityDenom, c12MaxDenom} {
 		c := sdk.NewCoins(sdk.NewCoin(d, sdk.NewInt(1000000)))
 		c12Must(a.BankKeeper.MintCoins(ctx, aggtypes.ModuleName, c))
 		c12Must(a.BankKeeper.SendCoinsFromModuleToAccount(ctx, aggtypes.ModuleName, sdk.AccAddress(w.user.Bytes()), c))
@@ -135,12 +153,23 @@ func newC12World() *c12World {
 	}
 	w.ext = append(w.ext, deploy("Euro Coin", "EURX", 18))
 	w.ext = append(w.ext, deploy("zero", "ZERO", 0))
+	w.ext = append(w.ext, deploy("maxdec", "MAXD", 255))
+	// a contract whose ADDRESS BYTES are a valid denomination string ("stake-validator-pool"): the code, storage (name,
+	// symbol, balances) of the first ERC20 are placed at that address; a coin with exactly that denomination exists too
+	w.vanity = common.BytesToAddress([]byte(c12VanityDenom))
+	if acc := a.EvmKeeper.GetAccount(ctx, w.ext[0]); acc != nil {
+		c12Must(a.EvmKeeper.SetAccount(ctx, w.vanity, statedb.Account{Nonce: 1, Balance: new(big.Int), CodeHash: acc.CodeHash}))
+		a.EvmKeeper.ForEachStorage(ctx, w.ext[0], func(key, value common.Hash) bool {
+			a.EvmKeeper.SetState(ctx, w.vanity, key, value.Bytes())
+			return true
+		})
+	}
 	nonce, err := a.AccountKeeper.GetSequence(ctx, aggtypes.ModuleAddress.Bytes())
 	c12Must(err)
 	for i := uint64(0); i < 8; i++ {
 		w.mod = append(w.mod, crypto.CreateAddress(aggtypes.ModuleAddress, nonce+i))
 	}
-	w.addrs = append(append(append([]common.Address{}, w.ext...), w.mod...), w.eoa)
+	w.addrs = append(append(append([]common.Address{}, w.ext...), w.mod...), w.eoa, w.vanity)
 	for _, a := range w.addrs {
 		w.seeSpelling(a.Hex())
 	}
@@ -150,7 +179,7 @@ func newC12World() *c12World {
 }
 
 func (w *c12World) reset() {
-	w.ctx, _ = w.base.CacheContext()
+	w.ctx, w.writeBase = w.base.CacheContext()
 	w.stack = nil
 	w.hist = nil
 	w.conv = map[string]bool{}
@@ -412,6 +441,38 @@ func (w *c12World) oracle(r *Rec) bool {
 			w.conv[d] = true
 		}
 	}
+	// the keeper's own conversion gate accepts every registered denomination of an enabled pair (both entry points:
+	// ConvertCoin(denom) and ConvertERC20(contract, denom)); denominations that read as hex addresses are excluded
+	// (documented: GetTokenPairID treats them as addresses)
+	if ok && w.app.AggregateKeeper.GetParams(w.ctx).EnableAggregate {
+		u := sdk.AccAddress(w.user.Bytes())
+		n := 0
+		for _, id := range ids {
+			p := raw.pairs[id]
+			if !p.Enabled {
+				continue
+			}
+			if n++; n > 40 {
+				break
+			}
+			for _, d := range p.Denoms {
+				if common.IsHexAddress(d) {
+					continue
+				}
+				var e1, e2 error
+				safely(func() {
+					_, e1 = w.app.AggregateKeeper.MintingEnabled(w.ctx, u, u, d, d)
+					_, e2 = w.app.AggregateKeeper.MintingEnabled(w.ctx, u, u, p.ERC20Address, d)
+				})
+				r.Count("oracle.minting-enabled")
+				if e1 != nil || e2 != nil {
+					ok = false
+					w.find(r, "minting-enabled-rejects-registered-denom", fmt.Sprintf("MintingEnabled rejects denomination %q of the enabled pair %s: %v / %v", d, w.canonID(id), e1, e2),
+						"rejected", "a registered denomination of an enabled pair passes the conversion gate")
+				}
+			}
+		}
+	}
 	// the keeper's own lookup functions agree with the raw maps
 	k := w.app.AggregateKeeper
 	for _, id := range ids {
@@ -576,13 +637,63 @@ func c12ParsePairs(s string) []aggtypes.TokenPair {
 
 // proposal runs a governance proposal the way x/gov does: stateless validation at submission, handler inside a cache
 // context which is written back only on success.
+// c12WipeRegistry empties the aggregate module's store (every key, whatever its prefix)
+func c12WipeRegistry(ctx sdk.Context, key sdk.StoreKey) {
+	st := ctx.KVStore(key)
+	var keys [][]byte
+	it := st.Iterator(nil, nil)
+	for ; it.Valid(); it.Next() {
+		keys = append(keys, append([]byte{}, it.Key()...))
+	}
+	it.Close()
+	for _, k := range keys {
+		st.Delete(k)
+	}
+}
+
+// snapshotAll: everything the harness observes of a state (registry, params, metadata, live contracts, module nonce)
+func (w *c12World) snapshotAll(ctx sdk.Context) string {
+	reg, metas := w.dump(ctx)
+	nonce, _ := w.app.AccountKeeper.GetSequence(ctx, aggtypes.ModuleAddress.Bytes())
+	return reg + " M:" + metas + " L:" + strings.Join(w.live(ctx), ",") + " N:" + strconv.FormatUint(nonce, 10)
+}
+
+// c12VB: the stateless stage of a proposal as a transaction goes through it: MsgSubmitProposal.ValidateBasic
+// (proposal type registered, content.ValidateBasic)
+func (w *c12World) vbProposal(c govtypes.Content) bool {
+	msg, err := govtypes.NewMsgSubmitProposal(c, sdk.NewCoins(), sdk.AccAddress(w.user.Bytes()))
+	if err != nil {
+		return false
+	}
+	ok := false
+	safely(func() { ok = msg.ValidateBasic() == nil })
+	return ok
+}
+
 func (w *c12World) proposal(r *Rec, vb bool, c govtypes.Content) string {
 	if !vb {
 		return "err"
 	}
+	// submission: gov runs the routed handler on a branch that is dropped; nothing may change, and (same state) the verdict
+	// is the verdict of the execution below
+	before := w.snapshotAll(w.ctx)
+	sctx, _ := w.ctx.CacheContext() // the proposal record itself is not kept either (gov store is outside the property)
+	var subErr error
+	span, smsg := safely(func() { _, subErr = w.app.GovKeeper.SubmitProposal(sctx, c) })
+	r.Count("gov.submit")
+	if after := w.snapshotAll(w.ctx); after != before {
+		r.Find(Finding{Sig: "C12:dropped-execution-changed-state:submit-proposal", What: "the dry run of a proposal at submission changed state", Ops: append(append([]string{}, w.hist...), w.lastOp), Obs: after, Req: before})
+	}
+	handler := w.app.GovKeeper.Router().GetRoute(c.ProposalRoute())
 	cctx, write := w.ctx.CacheContext()
 	var err error
-	pan, msg := safely(func() { err = w.handler(cctx, c) })
+	pan, msg := safely(func() { err = handler(cctx, c) })
+	if span {
+		pan, msg = true, smsg
+	}
+	if !pan && (subErr == nil) != (err == nil) {
+		r.Find(Finding{Sig: "C12:dry-run-verdict-differs:" + c.ProposalType(), What: fmt.Sprintf("submission dry run says %v, execution in the same state says %v", subErr, err), Ops: append(append([]string{}, w.hist...), w.lastOp), Obs: "different verdicts", Req: "same verdict"})
+	}
 	if pan {
 		r.Find(Finding{Sig: "C12:handler-panic:" + c.ProposalType(), What: "proposal handler panics: " + msg, Ops: append(append([]string{}, w.hist...), w.lastOp), Obs: "panic", Req: "ok or error"})
 		return "panic"
@@ -628,6 +739,68 @@ func (w *c12World) apply(r *Rec, line string) (string, string) {
 		return op, "ok"
 	case "mode", "genmode":
 		return op, "ok"
+	case "dry":
+		inner := strings.Join(f[1:], " ")
+		before := w.snapshotAll(w.ctx)
+		w.apply(r, "push")
+		iop, iout := w.apply(r, inner)
+		w.apply(r, "pop")
+		if after := w.snapshotAll(w.ctx); after != before {
+			r.Find(Finding{Sig: "C12:dropped-execution-changed-state:" + f[1], What: "an execution on a context that was dropped changed state", Ops: append(append([]string{}, w.hist...), "dry "+iop), Obs: after, Req: before})
+		}
+		r.Count("dry." + f[1])
+		return "dry " + iop, strings.Fields(iout)[0] + " dry"
+	case "restart":
+		pre, _ := w.dump(w.ctx)
+		valid := false
+		cctx, write := w.ctx.CacheContext()
+		pan, msg := safely(func() {
+			g := aggregate.ExportGenesis(cctx, *k)
+			bz := w.app.AppCodec().MustMarshalJSON(g) // through the app codec, as a genesis file
+			var g2 aggtypes.GenesisState
+			w.app.AppCodec().MustUnmarshalJSON(bz, &g2)
+			valid = g2.Validate() == nil
+			c12WipeRegistry(cctx, w.app.GetKey(aggtypes.StoreKey))
+			aggregate.InitGenesis(cctx, *k, w.app.AccountKeeper, g2)
+		})
+		if pan {
+			status = "panic"
+			r.Find(Finding{Sig: "C12:restart-panics", What: "export / import of the module's own state panics: " + msg, Ops: append(append([]string{}, w.hist...), op), Obs: "panic", Req: "restart"})
+		} else {
+			write()
+		}
+		if !valid && !w.tainted {
+			r.Find(Finding{Sig: "C12:restart-export-rejected", What: "GenesisState.Validate rejects the module's own export", Ops: append(append([]string{}, w.hist...), op), Obs: "Validate: error", Req: "ok"})
+		}
+		if post, _ := w.dump(w.ctx); post != pre && !w.tainted {
+			r.Find(Finding{Sig: "C12:state-lost-across-restart", What: "export -> JSON -> Validate -> empty store -> InitGenesis changed the registry", Ops: append(append([]string{}, w.hist...), op), Obs: post, Req: pre})
+		}
+		r.Count("restart")
+		raw := w.raw(w.ctx)
+		for _, p := range raw.pairs {
+			if !p.Enabled {
+				r.Count("restart.with-disabled-pair")
+			}
+			if len(p.Denoms) > 1 {
+				r.Count("restart.with-multidenom-pair")
+			}
+			if p.ERC20Address != p.GetERC20Contract().Hex() {
+				r.Count("restart.with-respelled-pair")
+			}
+		}
+		if len(raw.pairs) >= 2 {
+			r.Count("restart.two-or-more-pairs")
+		}
+		status += " valid=" + c12Bit(valid)
+	case "bulkmeta":
+		n, _ := strconv.Atoi(f[1])
+		pre := string(unhx(f[2]))
+		for i := 0; i < n; i++ {
+			d := fmt.Sprintf("%s%04d", pre, i)
+			w.seeDenom(d)
+			w.app.BankKeeper.SetDenomMetaData(w.ctx, banktypes.Metadata{Description: "bulk", Base: d, Name: d, Symbol: "BULK", Display: d,
+				DenomUnits: []*banktypes.DenomUnit{{Denom: d, Exponent: 0}}})
+		}
 	case "params":
 		p := k.GetParams(w.ctx)
 		p.EnableAggregate = f[1] == "1"
@@ -637,24 +810,29 @@ func (w *c12World) apply(r *Rec, line string) (string, string) {
 		w.seeDenom(m.Base)
 		w.app.BankKeeper.SetDenomMetaData(w.ctx, m)
 	case "env":
+		if f[1] == "mint" { // coins <prefix>0000.. get a supply (held by the user)
+			n, _ := strconv.Atoi(f[2])
+			pre := string(unhx(f[3]))
+			for i := 0; i < n; i++ {
+				c := sdk.NewCoins(sdk.NewCoin(fmt.Sprintf("%s%04d", pre, i), sdk.NewInt(1000)))
+				c12Must(w.app.BankKeeper.MintCoins(w.ctx, aggtypes.ModuleName, c))
+				c12Must(w.app.BankKeeper.SendCoinsFromModuleToAccount(w.ctx, aggtypes.ModuleName, sdk.AccAddress(w.user.Bytes()), c))
+			}
+			break
+		}
+		if f[1] == "restartapp" {
+			if msg := w.restartApp(r); msg != "" {
+				r.Find(Finding{Sig: "C12:app-restart-failed", What: "whole-app export / InitChain failed: " + msg, Ops: append(append([]string{}, w.hist...), op), Obs: msg, Req: "the chain restarts from its export"})
+			}
+			break
+		}
 		if f[1] == "wipe" {
 			raw := w.raw(w.ctx)
 			snap := c12Snap(raw)
 			snap.conv = w.conv
 			w.wiped = &snap
 			w.conv = map[string]bool{}
-			st := w.ctx.KVStore(w.app.GetKey(aggtypes.StoreKey))
-			for _, pre := range [][]byte{aggtypes.KeyPrefixTokenPair, aggtypes.KeyPrefixTokenPairByERC20, aggtypes.KeyPrefixTokenPairByDenom} {
-				var keys [][]byte
-				it := sdk.KVStorePrefixIterator(st, pre)
-				for ; it.Valid(); it.Next() {
-					keys = append(keys, append([]byte{}, it.Key()...))
-				}
-				it.Close()
-				for _, key := range keys {
-					st.Delete(key)
-				}
-			}
+			c12WipeRegistry(w.ctx, w.app.GetKey(aggtypes.StoreKey))
 			r.Count("env.wipe")
 			break
 		}
@@ -676,7 +854,7 @@ func (w *c12World) apply(r *Rec, line string) (string, string) {
 		m, _ := c12ParseMeta(f[7:])
 		w.seeDenom(m.Base)
 		c := aggtypes.NewRegisterCoinProposal("t", "d", m)
-		vb := c.ValidateBasic() == nil
+		vb := w.vbProposal(c)
 		hs := w.app.BankKeeper.HasSupply(w.ctx, m.Base)
 		ev := m.Base == w.app.EvmKeeper.GetParams(w.ctx).EvmDenom
 		nonce, _ := w.app.AccountKeeper.GetSequence(w.ctx, aggtypes.ModuleAddress.Bytes())
@@ -703,7 +881,7 @@ func (w *c12World) apply(r *Rec, line string) (string, string) {
 		w.seeDenom(m.Base)
 		contract := string(unhx(f[4]))
 		c := aggtypes.NewAddCoinProposal("t", "d", m, contract)
-		vb := c.ValidateBasic() == nil
+		vb := w.vbProposal(c)
 		hs := w.app.BankKeeper.HasSupply(w.ctx, m.Base)
 		ev := m.Base == w.app.EvmKeeper.GetParams(w.ctx).EvmDenom
 		op = fmt.Sprintf("addcoin %s %s %s %s %s", c12Bit(vb), c12Bit(hs), c12Bit(ev), hxs(contract), c12MetaFields(m))
@@ -713,7 +891,7 @@ func (w *c12World) apply(r *Rec, line string) (string, string) {
 	case "regerc20":
 		a := c12ParseAddr(f[2])
 		c := aggtypes.NewRegisterERC20Proposal("t", "d", a.String())
-		vb := c.ValidateBasic() == nil
+		vb := w.vbProposal(c)
 		qok, q := w.queryERC20(a)
 		denom := aggtypes.CreateDenom(a.String())
 		w.seeDenom(denom)
@@ -732,7 +910,7 @@ func (w *c12World) apply(r *Rec, line string) (string, string) {
 	case "toggle":
 		tok := string(unhx(f[2]))
 		c := aggtypes.NewToggleTokenRelayProposal("t", "d", tok)
-		vb := c.ValidateBasic() == nil
+		vb := w.vbProposal(c)
 		op = fmt.Sprintf("toggle %s %s", c12Bit(vb), hxs(tok))
 		w.lastOp = op
 		status = w.proposal(r, vb, c)
@@ -740,7 +918,7 @@ func (w *c12World) apply(r *Rec, line string) (string, string) {
 	case "update":
 		o, n := c12ParseAddr(f[2]), c12ParseAddr(f[3])
 		c := aggtypes.NewUpdateTokenPairERC20Proposal("t", "d", o.String(), n.String())
-		vb := c.ValidateBasic() == nil
+		vb := w.vbProposal(c)
 		qok, q := w.queryERC20(n)
 		op = fmt.Sprintf("update %s %s %s %s %s %s %s %d %s %s", c12Bit(vb), c12Addr(o), c12Addr(n), n.Hex(), c12Bit(qok), hxs(q.Name), hxs(q.Symbol), q.Decimals,
 			hxs(aggtypes.CreateDenomDescription(o.String())), hxs(aggtypes.CreateDenomDescription(n.String())))
@@ -758,11 +936,25 @@ func (w *c12World) apply(r *Rec, line string) (string, string) {
 			}
 		}
 	case "convert":
-		tok, den := string(unhx(f[1])), string(unhx(f[2]))
+		tok, den := string(unhx(f[2])), string(unhx(f[3]))
 		live := w.live(w.ctx)
-		op = fmt.Sprintf("convert %s %s %s", hxs(tok), hxs(den), c12Join(live, ","))
-		w.lastOp = op
 		sender := sdk.AccAddress(w.user.Bytes())
+		var cvb bool
+		safely(func() {
+			if tok == den {
+				cvb = (aggtypes.MsgConvertCoin{Coin: sdk.Coin{Denom: den, Amount: sdk.NewInt(3)}, Receiver: w.user.Hex(), Sender: sender.String()}).ValidateBasic() == nil
+			} else {
+				cvb = (aggtypes.MsgConvertERC20{ContractAddress: tok, Amount: sdk.NewInt(3), Receiver: sender.String(), Sender: w.user.Hex(), Denom: den}).ValidateBasic() == nil
+			}
+		})
+		op = fmt.Sprintf("convert %s %s %s %s", c12Bit(cvb), hxs(tok), hxs(den), c12Join(live, ","))
+		w.lastOp = op
+		if !cvb { // the transaction never reaches the message server
+			status = "rej"
+			r.Count("convert.rej.validatebasic")
+			r.Count("convert." + status)
+			break
+		}
 		before := w.raw(w.ctx)
 		var meErr error
 		var mePair aggtypes.TokenPair
@@ -1072,9 +1264,9 @@ func (w *c12World) alphabet(big bool) []string {
 		up(e[2], e[0]),
 		"env kill " + c12Addr(e[0]),
 		"env kill " + c12Addr(m[0]),
-		"convert " + hxs("acoin") + " " + hxs("acoin") + " _",
-		"convert " + hxs("ccoin") + " " + hxs("ccoin") + " _",
-		"convert " + w.tokStr(e[0]) + " " + hxs(aggtypes.CreateDenom(e[0].String())) + " _",
+		"convert _ " + hxs("acoin") + " " + hxs("acoin") + " _",
+		"convert _ " + hxs("ccoin") + " " + hxs("ccoin") + " _",
+		"convert _ " + w.tokStr(e[0]) + " " + hxs(aggtypes.CreateDenom(e[0].String())) + " _",
 		"params 0",
 		"params 1",
 	}
@@ -1084,7 +1276,7 @@ func (w *c12World) alphabet(big bool) []string {
 			ac(c12Coin("bcoin", "bcoin"), e[1]),
 			up(e[1], e[2]),
 			"env kill "+c12Addr(e[1]),
-			"convert "+w.tokStr(m[0])+" "+hxs("bcoin")+" _",
+			"convert _ "+w.tokStr(m[0])+" "+hxs("bcoin")+" _",
 			"toggle _ "+hxs(aggtypes.CreateDenom(e[0].String())),
 		)
 	}
@@ -1110,6 +1302,9 @@ func (w *c12World) dfs(r *Rec, alpha []string, depth, level, shard, nshards int,
 			}
 		}
 		w.do(r, "push")
+		if level <= 2 && !strings.HasPrefix(a, "env") && !strings.HasPrefix(a, "params") {
+			w.do(r, "dry "+a) // the same action on a dropped context first: nothing may change, the verdict below is unaffected
+		}
 		out, changed := w.do(r, a)
 		r.Count("dfs.node")
 		if changed {
@@ -1117,6 +1312,13 @@ func (w *c12World) dfs(r *Rec, alpha []string, depth, level, shard, nshards int,
 			r.Nontrivial(strings.Join(w.hist, ";"))
 			if rt && (strings.HasPrefix(out, "ok") || strings.HasPrefix(out, "del")) {
 				w.roundTrip(r)
+			}
+			// every second extended node: the module is restarted from its own export before the history goes on
+			if w.nodes++; w.nodes%2 == 0 && depth > 1 && !w.tainted {
+				if ro, _ := w.do(r, "restart"); rt && strings.HasPrefix(ro, "ok") {
+					w.roundTrip(r)
+				}
+				r.Count("dfs.restart-then-continue")
 			}
 			if depth > 1 {
 				w.dfs(r, alpha, depth-1, level+1, shard, nshards, counter, rt)
@@ -1132,14 +1334,17 @@ func (w *c12World) dfs(r *Rec, alpha []string, depth, level, shard, nshards int,
 func (w *c12World) randomOp(r *Rec) string {
 	rng := r.Rng
 	denoms := []string{"acoin", "bcoin", "ccoin", "dcoin", "atele", "ibc/27394FB092D2ECCD56123C74F36E4C1F926001CEADA9CA97EA622B25F41E5EB2",
-		"abcdefabcdefabcdefabcdefabcdefabcdefabcd", aggtypes.CreateDenom(w.ext[0].String()), aggtypes.CreateDenom(w.ext[3].String()), "usdx"}
+		"abcdefabcdefabcdefabcdefabcdefabcdefabcd", aggtypes.CreateDenom(w.ext[0].String()), aggtypes.CreateDenom(w.ext[3].String()), "usdx",
+		c12VanityDenom, c12MaxDenom, c12MaxDenom + "y", "0xabcdefabcdefabcdefabcdefabcdefabcdefabcd", aggtypes.CreateDenom(w.vanity.String())}
 	den := func() string { return denoms[rng.Intn(len(denoms))] }
 	addr := func() common.Address {
 		switch x := rng.Intn(10); {
 		case x < 6:
 			return w.ext[rng.Intn(len(w.ext))]
-		case x < 9:
+		case x < 8:
 			return w.mod[rng.Intn(4)]
+		case x < 9:
+			return w.vanity
 		default:
 			return w.eoa
 		}
@@ -1151,7 +1356,15 @@ func (w *c12World) randomOp(r *Rec) string {
 			m.Name = "channel-0 coin"
 			m.Symbol = "ibcX"
 		}
-		switch rng.Intn(12) {
+		switch rng.Intn(15) {
+		case 6: // an IBC voucher whose name does not mention the channel / whose symbol lacks the ibc prefix
+			m.Name = "some coin"
+		case 7:
+			m.Symbol = "XCOIN"
+		case 8: // display unit differs from the base
+			m.DenomUnits = append(m.DenomUnits, &banktypes.DenomUnit{Denom: "m" + strings.ReplaceAll(b, "/", ""), Exponent: 6})
+			m.Display = "m" + strings.ReplaceAll(b, "/", "")
+			m.Symbol = "m" + m.Symbol
 		case 0:
 			m.Name = den()
 		case 1:
@@ -1212,6 +1425,23 @@ func (w *c12World) randomOp(r *Rec) string {
 		}
 		return strings.Join(l, ";")
 	}
+	if w.dryDepth == 0 {
+		switch rng.Intn(16) {
+		case 0:
+			// (not in a history that imported an inconsistent file: re-importing an inconsistent registry depends on the
+			// store's iteration order by raw id, which is outside the model and the theorems)
+			if !w.tainted {
+				return "restart"
+			}
+		case 1:
+			w.dryDepth++
+			inner := w.randomOp(r)
+			w.dryDepth--
+			if f := strings.Fields(inner)[0]; f != "restart" && f != "env" && f != "bankmeta" && f != "params" && f != "genvalidate" && f != "genexport" {
+				return "dry " + inner
+			}
+		}
+	}
 	switch x := rng.Intn(100); {
 	case x < 16:
 		return "regcoin _ _ _ _ _ _ " + c12MetaFields(meta())
@@ -1230,9 +1460,9 @@ func (w *c12World) randomOp(r *Rec) string {
 	case x < 84:
 		if rng.Intn(2) == 0 {
 			d := tok()
-			return "convert " + hxs(d) + " " + hxs(d) + " _"
+			return "convert _ " + hxs(d) + " " + hxs(d) + " _"
 		}
-		return "convert " + hxs(addr().Hex()) + " " + hxs(den()) + " _"
+		return "convert _ " + hxs(addr().Hex()) + " " + hxs(den()) + " _"
 	case x < 89:
 		return "env kill " + c12Addr(addr())
 	case x < 92:
@@ -1300,8 +1530,8 @@ func (w *c12World) genesisSweep(r *Rec, depth, shard, nshards int) {
 		return "addcoin _ _ _ " + w.tokStr(a) + " " + c12MetaFields(c12Coin(d, d))
 	}
 	re := "regerc20 _ " + c12Addr(e[0]) + " _ _ _ _ _ _ _ _ _"
-	cvCoin := "convert " + hxs("acoin") + " " + hxs("acoin") + " _"
-	cvTok := "convert " + w.tokStr(e[0]) + " " + hxs(voucher) + " _"
+	cvCoin := "convert _ " + hxs("acoin") + " " + hxs("acoin") + " _"
+	cvTok := "convert _ " + w.tokStr(e[0]) + " " + hxs(voucher) + " _"
 	scens := []scen{
 		{"module.single", []string{rc, cvCoin}, m[0]},
 		{"module.multi", []string{rc, ac("bcoin", m[0]), cvCoin}, m[0]},
@@ -1337,9 +1567,9 @@ func (w *c12World) genesisSweep(r *Rec, depth, shard, nshards int) {
 				"toggle _ " + hxs("acoin"),
 				"addcoin _ _ _ " + hxs(sp[5]) + " " + c12MetaFields(c12Coin("bcoin", "bcoin")),
 				"addcoin _ _ _ " + hxs(sp[0]) + " " + c12MetaFields(c12Coin("ccoin", "ccoin")),
-				"convert " + hxs("acoin") + " " + hxs("acoin") + " _",
-				"convert " + hxs(sp[3]) + " " + hxs("acoin") + " _",
-				"convert " + hxs(sp[1]) + " " + hxs(voucher) + " _",
+				"convert _ " + hxs("acoin") + " " + hxs("acoin") + " _",
+				"convert _ " + hxs(sp[3]) + " " + hxs("acoin") + " _",
+				"convert _ " + hxs(sp[1]) + " " + hxs(voucher) + " _",
 				"update _ " + c12Addr(e[0]) + " " + c12Addr(e[2]) + " _ _ _ _ _ _ _",
 				"update _ " + c12Addr(e[2]) + " " + c12Addr(e[0]) + " _ _ _ _ _ _ _",
 				"regerc20 _ " + c12Addr(e[0]) + " _ _ _ _ _ _ _ _ _",
@@ -1380,6 +1610,142 @@ func (w *c12World) probeDfs(r *Rec, alpha []string, depth int, counter *int) {
 		}
 		w.do(r, "pop")
 	}
+}
+
+const c12IbcDenom = "ibc/27394FB092D2ECCD56123C74F36E4C1F926001CEADA9CA97EA622B25F41E5EB2"
+
+// metadata of an ICS-20 voucher as RegisterCoinProposal.ValidateBasic demands it (name with the channel, symbol ibc…)
+func c12IbcCoin() banktypes.Metadata {
+	m := c12Coin(c12IbcDenom, "transfer/channel-0/uatom")
+	m.Symbol = "ibcATOM"
+	return m
+}
+
+// coin with a display unit other than the base (Display / Symbol variants)
+func c12DisplayCoin(base string) banktypes.Metadata {
+	m := c12Coin(base, base)
+	m.DenomUnits = append(m.DenomUnits, &banktypes.DenomUnit{Denom: "mega" + base, Exponent: 6})
+	m.Display = "mega" + base
+	m.Symbol = "M" + strings.ToUpper(base)
+	return m
+}
+
+// boundarySweep: ALL sequences up to `depth` over boundary-valued actions: a contract whose address bytes are a valid
+// denomination and the coin with exactly that denomination, a 128-character denomination, a denomination that reads as a
+// hex address (and one with 0x, which is no valid denomination), an IBC voucher, display-unit variants, an ERC20 with 255
+// decimals, restarts.
+func (w *c12World) boundarySweep(r *Rec, depth int) {
+	e, m := w.ext, w.mod
+	rc := func(md banktypes.Metadata) string { return "regcoin _ _ _ _ _ _ " + c12MetaFields(md) }
+	ac := func(md banktypes.Metadata, a common.Address) string {
+		return "addcoin _ _ _ " + w.tokStr(a) + " " + c12MetaFields(md)
+	}
+	re := func(a common.Address) string { return "regerc20 _ " + c12Addr(a) + " _ _ _ _ _ _ _ _ _" }
+	up := func(a, b common.Address) string { return "update _ " + c12Addr(a) + " " + c12Addr(b) + " _ _ _ _ _ _ _" }
+	vd := c12VanityDenom
+	hexd := "abcdefabcdefabcdefabcdefabcdefabcdefabcd"
+	alpha := []string{
+		re(w.vanity),
+		rc(c12Coin(vd, vd)),
+		ac(c12Coin(vd, vd), e[1]),
+		ac(c12Coin("acoin", "acoin"), w.vanity),
+		re(e[1]),
+		"toggle _ " + hxs(vd),
+		"toggle _ " + w.tokStr(w.vanity),
+		"convert _ " + hxs(vd) + " " + hxs(vd) + " _",
+		"convert _ " + w.tokStr(w.vanity) + " " + hxs(aggtypes.CreateDenom(w.vanity.String())) + " _",
+		up(w.vanity, e[2]),
+		up(e[1], w.vanity),
+		rc(c12Coin(c12MaxDenom, c12MaxDenom)),
+		ac(c12Coin(c12MaxDenom, c12MaxDenom), m[0]),
+		rc(c12IbcCoin()),
+		rc(c12DisplayCoin("bcoin")),
+		rc(c12Coin(hexd, hexd)),
+		rc(c12Coin("0x"+hexd, "0x"+hexd)),
+		rc(c12Coin(c12MaxDenom+"y", c12MaxDenom+"y")),
+		re(e[5]),
+		"env kill " + c12Addr(w.vanity),
+		"restart",
+	}
+	w.do(r, "reset")
+	var rec func(d int)
+	rec = func(d int) {
+		for _, a := range alpha {
+			w.do(r, "push")
+			out, changed := w.do(r, a)
+			r.Count("boundary.node")
+			if strings.HasPrefix(out, "ok") && !strings.HasPrefix(a, "env") && a != "restart" {
+				r.Count("boundary.ok." + strings.Fields(a)[0])
+			}
+			if changed {
+				r.Nontrivial(strings.Join(w.hist, ";"))
+				if strings.HasPrefix(out, "ok") || strings.HasPrefix(out, "del") {
+					w.roundTrip(r)
+				}
+				if d > 1 {
+					rec(d - 1)
+				}
+			}
+			w.do(r, "pop")
+		}
+	}
+	rec(depth)
+}
+
+// bulk histories: 1000 pairs (imported, restarted, probed at both ends) and a pair with 100 denominations (built by
+// governance, restarted, re-indexed by an address update, converted, deleted)
+func (w *c12World) bulkHistories(r *Rec) {
+	e, m := w.ext, w.mod
+	// ---- 1000 pairs
+	w.do(r, "reset")
+	w.do(r, "bulkmeta 1000 "+hxs("bk"))
+	pairs := make([]string, 1000)
+	for i := 0; i < 1000; i++ {
+		a := common.BigToAddress(new(big.Int).Add(new(big.Int).Lsh(big.NewInt(0xB01DFACE), 96), big.NewInt(int64(i)*7919+1)))
+		sp := c12Spellings(a)
+		pairs[i] = sp[i%len(sp)] + ">" + hxs(fmt.Sprintf("bk%04d", i)) + ">" + c12Bit(i%5 != 3) + ">" + strconv.Itoa(1+i%2)
+	}
+	g := strings.Join(pairs, ";")
+	w.do(r, "genvalidate "+g)
+	w.do(r, "geninit "+g)
+	w.do(r, "restart")
+	w.do(r, "genexport")
+	for _, i := range []int{0, 99, 100, 101, 500, 999} {
+		w.do(r, "toggle _ "+hxs(fmt.Sprintf("bk%04d", i)))
+	}
+	w.do(r, "toggle _ "+hxs(strings.Split(pairs[999], ">")[0]))
+	w.do(r, "regerc20 _ "+c12Addr(e[0])+" _ _ _ _ _ _ _ _ _")
+	w.do(r, "addcoin _ _ _ "+w.tokStr(e[0])+" "+c12MetaFields(c12Coin("acoin", "acoin")))
+	w.do(r, "update _ "+c12Addr(e[0])+" "+c12Addr(e[2])+" _ _ _ _ _ _ _")
+	w.do(r, "convert _ "+hxs("bk0998")+" "+hxs("bk0998")+" _") // no contract there: the pair is cleaned up
+	w.do(r, "restart")
+	w.do(r, "convert _ "+w.tokStr(e[2])+" "+hxs(aggtypes.CreateDenom(e[0].String()))+" _")
+	r.Count("bulk.pairs1000")
+	// ---- a pair with 100 (module) / 101 (external) denominations
+	w.do(r, "reset")
+	w.do(r, "env mint 100 "+hxs("hd"))
+	w.do(r, "env mint 100 "+hxs("he"))
+	w.do(r, "regcoin _ _ _ _ _ _ "+c12MetaFields(c12Coin("acoin", "acoin")))
+	w.do(r, "regerc20 _ "+c12Addr(e[0])+" _ _ _ _ _ _ _ _ _")
+	for i := 0; i < 100; i++ {
+		d := fmt.Sprintf("hd%04d", i)
+		w.do(r, "addcoin _ _ _ "+w.tokStr(m[0])+" "+c12MetaFields(c12Coin(d, d)))
+		d = fmt.Sprintf("he%04d", i)
+		w.do(r, "addcoin _ _ _ "+w.tokStr(e[0])+" "+c12MetaFields(c12Coin(d, d)))
+	}
+	w.roundTrip(r)
+	w.do(r, "restart")
+	w.do(r, "toggle _ "+hxs("hd0099"))
+	w.do(r, "toggle _ "+hxs("hd0099"))
+	w.do(r, "convert _ "+hxs("hd0099")+" "+hxs("hd0099")+" _")
+	w.do(r, "convert _ "+w.tokStr(m[0])+" "+hxs("hd0099")+" _")
+	w.do(r, "update _ "+c12Addr(e[0])+" "+c12Addr(e[2])+" _ _ _ _ _ _ _")
+	w.do(r, "restart")
+	w.roundTrip(r)
+	w.do(r, "env kill "+c12Addr(e[2]))
+	w.do(r, "convert _ "+hxs("he0050")+" "+hxs("he0050")+" _") // clean-up of 101 denomination entries
+	w.do(r, "genexport")
+	r.Count("bulk.denoms100")
 }
 
 func (w *c12World) randomGenesis(r *Rec) []string {
@@ -1426,11 +1792,11 @@ func TestC12(t *testing.T) {
 		}}
 		strict := false
 		safely(func() { strict = probe.Validate() != nil })
+		w.genmode = "genmode orig"
 		if strict {
-			w.do(r, "genmode strict")
-		} else {
-			w.do(r, "genmode orig")
+			w.genmode = "genmode strict"
 		}
+		w.do(r, w.genmode)
 	}
 	if os.Getenv("VERIF_C12_MODEL") == "orig" { // development aid: compare against the model of the UNREPAIRED update function
 		w.do(r, "mode orig")
@@ -1473,6 +1839,15 @@ func TestC12(t *testing.T) {
 		gdepth = 3
 	}
 	w.genesisSweep(r, gdepth, r.Shard, nshards)
+	// boundary values and bulk
+	w.boundarySweep(r, 3)
+	if !thorough || r.Shard%4 == 0 {
+		w.bulkHistories(r)
+	}
+	// whole-app restarts (own world: a committed chain cannot be reset)
+	if !thorough || r.Shard%4 == 1 {
+		c12AppRestartHistories(r, 60, w.genmode)
+	}
 	// random long histories
 	for i := 0; i < nrand; i++ {
 		w.do(r, "reset")
